@@ -8,7 +8,9 @@ import (
 
 type nnHelper [2]string
 
-func (n nnHelper) toNN() types.NamespacedName { return types.NamespacedName{Namespace: n[0], Name: n[1]} }
+func (n nnHelper) toNN() types.NamespacedName {
+	return types.NamespacedName{Namespace: n[0], Name: n[1]}
+}
 
 func jsonRoundTrip(in any) (scenario, error) {
 	var sc scenario
